@@ -85,6 +85,16 @@ def _z():
     return ZConfig
 
 
+def _with_env(env, args):
+    """Set the process environment of the replay (the names a search uses) and return args."""
+    import os
+    for k in ('a', 'A', 'b', 'B'):
+        os.environ.pop(k, None)
+    for k, v in (env or {}).items():
+        os.environ[k] = v
+    return args
+
+
 SUBST_ALPHA = ['$', '{', '}', '(', ')', 'a', 'B', '_', '1', '-']
 
 NATIVE = {
@@ -97,9 +107,10 @@ NATIVE = {
         'domain': {'s': ('str', ['a', 'B', '_', '1', '-', '$', 'é'], 4)},
     },
     'substitution.substitute': {
-        'call': lambda s, mapping: __import__('ZConfig.substitution').substitution.substitute(s, mapping),
-        'build': lambda s, mapping: {'s': s, 'mapping': SharedDict(mapping)},
-        'domain': {'s': ('str', ['$', '{', '}', '(', 'a', 'B', '-'], 5),
-                   'mapping': ('choice', [{}, {'a': 'X$a', 'b': ''}, {'b': '$$'}])},
+        'call': lambda s, mapping, env=None: __import__('ZConfig.substitution').substitution.substitute(s, mapping),
+        'build': lambda s, mapping, env=None: _with_env(env, {'s': s, 'mapping': SharedDict(mapping)}),
+        'domain': {'s': ('str', ['$', '{', '}', '(', ')', 'a', 'B', '-'], 5),
+                   'mapping': ('choice', [{}, {'a': 'X$a', 'b': ''}, {'b': '$$'}]),
+                   'env': ('choice', [{}, {'a': 'E$(a)', 'B': ''}, {'B': 'e'}])},
     },
 }
